@@ -122,8 +122,19 @@ def lv(spec, v, x):
     return math.log(x) if is_log(spec, v) and x > 0 else (float("nan") if is_log(spec, v) else x)
 
 
-def model_source(spec) -> str:
+def variant_spec(spec, k):
+    """the singleton model of parameter variant k: the parameterised coefficient written out as a number"""
+    out = json.loads(json.dumps(spec))
+    pv = out.pop("pvar", None)
+    if pv:
+        t = out["eqs"][pv["eq"]]["terms"][pv["term"]]
+        out["eqs"][pv["eq"]]["terms"][pv["term"]] = [pv["values"][k], t[1], t[2]]
+    return out
+
+
+def model_source(spec, multi=False) -> str:
     logs = spec.get("logs") or []
+    pv = spec.get("pvar") if multi else None
     def ref(v, s):
         sh = "" if s == 0 else "{%+d}" % s
         return f"log({v}{sh})" if v in logs else f"{v}{sh}"
@@ -133,10 +144,36 @@ def model_source(spec) -> str:
     if logs:
         lines += ["!log-variables", "    " + ", ".join(logs)]
     lines += ["!transition_shocks", "    " + ", ".join("e" + v for v in spec["names"]), "!transition_equations"]
-    for e in spec["eqs"]:
-        rhs = " + ".join(term(*t) for t in e["terms"]) + f" + e{e['lhs']}" + (f" + {e['const']!r}" if e["const"] else "")
+    if pv:
+        lines += ["!parameters", "    p0"]
+        lines[lines.index("!transition_equations"):] = []
+        lines += ["!transition_equations"]
+    for ei, e in enumerate(spec["eqs"]):
+        rhs = " + ".join((f"p0*{ref(t[1], t[2])}" if pv and ei == pv["eq"] and ti == pv["term"] else term(*t)) for ti, t in enumerate(e["terms"])) \
+            + f" + e{e['lhs']}" + (f" + {e['const']!r}" if e["const"] else "")
         lines.append(f"    {ref(e['lhs'], 0)} = {rhs};")
     return "\n".join(lines) + "\n"
+
+
+def build_multi(spec):
+    """one model object with one parameter variant per value of the parameterised coefficient"""
+    key = "multi:" + json.dumps(spec, sort_keys=True)
+    if key in _MODEL_CACHE:
+        return _MODEL_CACHE[key]
+    logs = spec.get("logs") or []
+    kw = {"deterministic": True} if spec.get("deterministic") else {}
+    m = ir.Simultaneous.from_string(model_source(spec, multi=True), linear=not logs, **kw)
+    m.alter_num_variants(len(spec["pvar"]["values"]))
+    m.assign(p0=list(spec["pvar"]["values"]))
+    if not spec.get("deterministic"):
+        m.assign(**{f"std_e{v}": sd for v, sd in zip(spec["names"], spec["stds"])})
+    if logs:
+        m.assign(**{v: (1.0 if v in logs else 0.0) for v in spec["names"]})
+    with contextlib.redirect_stdout(io.StringIO()):
+        m.steady()
+    m.solve()
+    _MODEL_CACHE[key] = m
+    return m
 
 
 _MODEL_CACHE: dict = {}
